@@ -4,7 +4,8 @@ PROP = {
     "kani_groups": ["hk_emit_std"],
     "smt": [smt_units.unit_slot_init],
     "technique": "bounded model checking (Kani/CBMC) of AmbientSlot over every serial order of initialisers and observers (real OnceLock)",
-    "functions": ['E2-cfg (mir2smt/cfgabs.py): AmbientSlot::{init, get, is_enabled} operate on the OnceLock only through one set then (on Ok) one get resp. one get; SMT interleaving model of <= 3 initialisers and <= 3 observers over an atomic write-once cell (OnceLock contract trusted)',
+    "functions": ['E2-cfg on the MIR of emit::setup::Setup::{try_init_slot, try_init_internal, try_init} (the init_* forms call these): on every path the runtime handed to the slot was built by Runtime::with_emitter / with_filter / with_ctxt / with_clock / with_rng, all five before AmbientSlot::init (AmbientInternalSlot::init); thin wrappers delegate to try_init_slot; a counter-path is replayed natively with five recognisable components read back through the slot',
+                  'E2-cfg (mir2smt/cfgabs.py): AmbientSlot::{init, get, is_enabled} operate on the OnceLock only through one set then (on Ok) one get resp. one get; SMT interleaving model of <= 3 initialisers and <= 3 observers over an atomic write-once cell (OnceLock contract trusted)',
                   "emit_core::runtime::{AmbientSlot::{new, init, get, is_enabled}, Runtime::{build, emit, map_*}, AmbientSync}, impl Emitter/Filter/Ctxt/Clock/Rng for the erased components"],
     "bounds": "Kani: init / losing init / is_enabled with a symbolic winner, and observers that flush / read rng and clock through slot.get() before and after (c20_q_inert_before_init: an observer that EMITS, flushes and reads rng through the erased runtime of a NOT YET initialised slot - nothing is emitted, flush is true, nothing panics; observers that emit through an INITIALISED slot do not finish in 15 min, also with --max-field-sensitivity-array-size 1024: not registered); originally planned: each one of {observe (emit + flush + rng through slot.get()), initialise configuration 1, initialise configuration 2}",
     "outside": "E2-cfg fallback: if get / is_enabled no longer answer from one read of the OnceLock the candidate 'enabled observed before the components are visible' is replayed natively (stress run, 1 initialiser + 3 observers x 20000 slots) - a VIOLATION only if that reproduces; racing threads (Kani executes one thread): mutual exclusion and publication are std::sync::OnceLock's documented contract and are trusted; "
